@@ -7,3 +7,5 @@ import "github.com/zilliztech/milvus-cdc/server/model/meta"
 func verifNewReplicateEntity(*MetaCDC, *meta.TaskInfo) (*ReplicateEntity, bool, error) {
 	return nil, false, nil
 }
+
+func verifEvent(string, string) {}
